@@ -78,6 +78,26 @@ def _install_ctx_logger():
 _install_ctx_logger()
 
 
+def extra(h, n):
+    """result tag / callee name, to relate chain nodes to the source text"""
+    op = h[n].op
+    try:
+        if isinstance(op, ops.ExtOp) and op.op_def().qualified_name().startswith("tket.result."):
+            for a in op.args:
+                v = getattr(a, "value", None)
+                if isinstance(v, str):
+                    return v
+        if isinstance(op, ops.Call):
+            for _, srcs in h.incoming_links(n):
+                for src in srcs:
+                    sop = h[src.node].op
+                    if isinstance(sop, (ops.FuncDefn, ops.FuncDecl)):
+                        return sop.f_name
+    except Exception as e:  # labels are best effort
+        return "?" + type(e).__name__
+    return None
+
+
 def dump_final(h):
     nodes, order = {}, []
     root = h.module_root if hasattr(h, "module_root") else h.root
@@ -86,7 +106,7 @@ def dump_final(h):
         n = stack.pop()
         ch = list(h.children(n))
         p = h[n].parent
-        nodes[n.idx] = [opname(h[n].op), -1 if p is None else p.idx, [c.idx for c in ch]]
+        nodes[n.idx] = [opname(h[n].op), -1 if p is None else p.idx, [c.idx for c in ch], extra(h, n)]
         try:
             for ip in h.linked_ports(OutPort(n, -1)):
                 order.append([n.idx, ip.node.idx])
